@@ -484,7 +484,7 @@ struct Scn
 	}
 
 	// ---------------------------------------------------------- scenario table
-	static int count() { return 16; }
+	static int count() { return 17; }
 	void build()
 	{
 		base();
@@ -494,7 +494,10 @@ struct Scn
 		net.def_net = {fastq};
 		switch (id)
 		{
-			case 0: desc = "timers: one 1 h wait, one 10 ms wait"; start_sim(); add_timer(3600000000000ll, true, true); add_timer(10000000, false, true); add_bystanders(); break;
+			case 0: desc = "timers: three 1 h waits and two 10 ms waits (equal expiries within each group)"; start_sim();
+				add_timer(3600000000000ll, true, true); add_timer(10000000, false, true);
+				add_timer(3600000000000ll, true, true); add_timer(3600000000000ll, true, true); add_timer(10000000, false, true);
+				add_bystanders(); break;
 			case 1: desc = "tcp pair, accept(peer) posted first, 30 kB each way over a 200 kB/s link"; net.def_net = {slowq}; start_sim(); add_pair(4000, 0, 30000, 30000, true); add_bystanders(); break;
 			case 2: desc = "tcp pair, accept(peer, endpoint), idle: both ends only have reads pending"; start_sim(); idle_reads = true; add_pair(4000, 1, 0, 0, true); idle_reads = false; add_bystanders(); break;
 			case 3: desc = "tcp pair, socket-returning accept, client writes 200 kB (blocks on the window), server reads slowly"; net.def_net = {slowq}; start_sim();
@@ -523,6 +526,17 @@ struct Scn
 					for (int k = 0; k < 30; ++k) { error_code e2; API(tx.s->send_to(asio::buffer(big), ip::udp::endpoint(B, 6000), 0, e2)); }
 					udp_wait_write(tx, 803); udp_receive(tx, 803, true);
 					add_udp_obj("udp.tx(deferred wait_write + receive)", 1, 803, true);
+				}
+				add_bystanders(); break;
+			case 16: desc = "udp: writable-wait deferred for 20 ms (send buffer 2 MB, 1.1 MB burst): the socket is writable again long before the deferred wait is due"; start_sim();
+				{
+					add_udp(*nb, B, 6000, 0); udp_receive(*udps[0], 800, false);
+					UdpEnd& tx = add_udp(*na, A, 6003, 0);
+					error_code ec; API(tx.s->set_option(ip::udp::socket::send_buffer_size(2000000), ec));
+					std::vector<std::uint8_t> big(64000, 7);
+					for (int k = 0; k < 17; ++k) { error_code e2; API(tx.s->send_to(asio::buffer(big), ip::udp::endpoint(B, 6000), 0, e2)); }
+					udp_wait_write(tx, 803);
+					add_udp_obj("udp.tx(wait_write deferred for 20 ms)", 1, 803, false);
 				}
 				add_bystanders(); break;
 			case 10: desc = "tcp resolver: fast name, 1 h name, literal, queued name"; start_sim(); add_resolver(false, true); add_bystanders(); break;
@@ -637,12 +651,14 @@ void run_case(Args const& a, std::uint64_t c)
 	bool applied = false, inapplicable = false;
 	sc.variant = int(kb % 4);
 	std::size_t ops_before = 0;
+	std::int64_t t_iv = -1; // virtual time of the intervention
 	auto intervene = [&]() {
 		if (applied || inapplicable) return;
 		if (iv == IV_THROW) { M().throw_at = std::int64_t(M().handler_invocations) + 1; applied = true; return; }
 		Obj& o = sc.objs[std::size_t(obj)];
 		if (!o.applicable(iv)) { inapplicable = true; return; }
 		ops_before = sc.ops.ops.size();
+		t_iv = now_ns();
 		applied = true;
 		sc.after_intervention = true;
 		o.apply(iv);
@@ -698,7 +714,15 @@ void run_case(Args const& a, std::uint64_t c)
 				, fmt("%s (op %d, started at step %" PRIu64 ") was outstanding on %s when it was %s at boundary %" PRIu64 " and its handler was never invoked"
 					, op->kind.c_str(), op->id, op->step_init, o.name.c_str(), iv == IV_SUPERSEDE ? "given a new operation of the same kind" : iv_name[iv], k));
 		}
-		else if (op->cannot_complete && !op->aborted() && iv != IV_SUPERSEDE)
+		else if (op->ec == 0 && t_iv >= 0 && op->t_done > t_iv)
+		{
+			// an operation that had completed before the intervention has its handler queued already and runs at the very
+			// same virtual time; success at a LATER time means the operation completed after it was aborted
+			r.violation("C04", std::string("completed-normally-after-") + iv_name[iv] + ":" + op->kind
+				, fmt("%s (op %d) was outstanding on %s when it was %s at %" PRId64 " ns; its handler was invoked with success at %" PRId64 " ns instead of operation_aborted"
+					, op->kind.c_str(), op->id, o.name.c_str(), iv == IV_SUPERSEDE ? "given a new operation of the same kind" : iv_name[iv], t_iv, op->t_done));
+		}
+		else if (op->cannot_complete && !op->aborted() && iv != IV_SUPERSEDE && !(op->ec == 0 && op->t_done == t_iv))
 		{
 			r.violation("C04", std::string("wrong-code-after-") + iv_name[iv] + ":" + op->kind
 				, fmt("%s (op %d) cannot complete naturally in this scenario; after %s of %s its handler got error %d (%s) instead of operation_aborted"
